@@ -53,7 +53,7 @@ Lemma inv_append s r :
   (f_leaf r = false ->
      pND (f_w r) /\ f_w r <> [] /\ allnz nat (f_w r) = true /\
      (forall k q, In (k, q) (f_w r) -> (k < nfun s)%nat /\ f_leaf (getf s k) = true) /\
-     f_reuse r = forallb (fun '(k, _) => f_reuse (getf s k)) (f_w r)) ->
+     (f_reuse r = true -> forallb (fun '(k, _) => f_reuse (getf s k)) (f_w r) = true)) ->
   inv (mkS (pt_ctr s) (ex_ctr s) (funs s ++ [r])).
 Proof.
   intros Hinv Hp Hst Hleaf Hcomp.
@@ -91,10 +91,11 @@ Proof.
       rewrite (Hold k Hk). apply (Hc k q Hin).
     + rewrite Hnew, Hp. intros _ [].
   - intros i Hi. destruct (Hcase i Hi) as [Ho| ->].
-    + rewrite (Hold i Ho). intros Hl. rewrite (H8 i Ho Hl). apply forallb_keys_ext.
+    + rewrite (Hold i Ho). intros Hl Hr. rewrite <- (H8 i Ho Hl Hr). apply forallb_keys_ext.
       intros k q Hin. destruct (H2 i Ho Hl) as (_ & _ & _ & D). destruct (D k q Hin) as [Hk _].
       rewrite (Hold k Hk). reflexivity.
-    + rewrite Hnew. intros Hl. destruct (Hcomp Hl) as (_ & _ & _ & D & ->). apply forallb_keys_ext.
+    + rewrite Hnew. intros Hl Hr. destruct (Hcomp Hl) as (_ & _ & _ & D & E). rewrite <- (E Hr).
+      apply forallb_keys_ext.
       intros k q Hin. destruct (D k q Hin) as [Hk _]. rewrite (Hold k Hk). reflexivity.
 Qed.
 
@@ -136,43 +137,61 @@ Section Combine.
 
   Definition term_ok (fq : fid * Q) : Prop := (fst fq < nfun s)%nat.
 
+  (** weights of an operand: distinct leaves; if the operand is declared differentiable, so are they *)
   Lemma term_weights f :
     (f < nfun s)%nat ->
     pND (f_w (getf s f)) /\
-    (forall k, In k (keys (f_w (getf s f))) -> (k < nfun s)%nat /\ f_leaf (getf s k) = true) /\
-    f_reuse (getf s f) = forallb (fun k => f_reuse (getf s k)) (keys (f_w (getf s f))).
+    (forall k, In k (keys (f_w (getf s f))) ->
+       (k < nfun s)%nat /\ f_leaf (getf s k) = true /\ (f_reuse (getf s f) = true -> f_reuse (getf s k) = true)).
   Proof.
     intros Hf. destruct (f_leaf (getf s f)) eqn:Hl.
-    - rewrite (ig_leafw noP s Hinv f Hf Hl). split; [apply pND_single|]. split.
-      + intros k [<-|[]]. auto.
-      + cbn. rewrite andb_true_r. reflexivity.
-    - destruct (ig_compw noP s Hinv f Hf Hl) as (A & _ & _ & D). split; [exact A|]. split.
-      + intros k Hk. apply key_lookup with (keqb := Nat.eqb) in Hk; [|exact nat_eqb_spec].
-        destruct Hk as [q Hq]. apply (lookup_Some_In nat Nat.eqb nat_eqb_spec) in Hq. apply (D k q Hq).
-      + rewrite (ig_I6 noP s Hinv f Hf Hl). apply forallb_pairs_keys.
+    - rewrite (ig_leafw noP s Hinv f Hf Hl). split; [apply pND_single|].
+      intros k [<-|[]]. auto.
+    - destruct (ig_compw noP s Hinv f Hf Hl) as (A & _ & _ & D). split; [exact A|].
+      intros k Hk. apply key_lookup with (keqb := Nat.eqb) in Hk; [|exact nat_eqb_spec].
+      destruct Hk as [q Hq]. apply (lookup_Some_In nat Nat.eqb nat_eqb_spec) in Hq.
+      destruct (D k q Hq) as [Hk Hkl]. split; [exact Hk|]. split; [exact Hkl|].
+      intros Hr. pose proof (ig_I6 noP s Hinv f Hf Hl Hr) as H6. rewrite forallb_forall in H6.
+      apply (H6 (k, q) Hq).
   Qed.
 
-  Lemma combine_fold terms : forall acc,
-    Forall term_ok terms -> pND acc ->
-    (forall k, In k (keys acc) -> (k < nfun s)%nat /\ f_leaf (getf s k) = true) ->
-    let W := fold_left (fun acc '(f, q) => merge Nat.eqb acc (scale q (f_w (getf s f)))) terms acc in
-    pND W /\ (forall k, In k (keys W) -> (k < nfun s)%nat /\ f_leaf (getf s k) = true) /\
-    forallb (fun k => f_reuse (getf s k)) (keys W)
-    = forallb (fun k => f_reuse (getf s k)) (keys acc) && forallb (fun '(f, _) => f_reuse (getf s f)) terms.
+  Definition wprop (terms : list (fid * Q)) (W : wdict) : Prop :=
+    pND W /\
+    forall k, In k (keys W) ->
+      (k < nfun s)%nat /\ f_leaf (getf s k) = true /\
+      (forallb (fun '(f, _) => f_reuse (getf s f)) terms = true -> f_reuse (getf s k) = true).
+
+  Lemma combine_fold rest : forall acc (seen : list (fid * Q)),
+    Forall term_ok rest -> wprop seen acc ->
+    wprop (seen ++ rest)
+          (fold_left (fun acc '(f, q) => prune (merge Nat.eqb acc (scale q (f_w (getf s f))))) rest acc).
   Proof.
-    induction terms as [|[f q] terms IH]; intros acc Hok Na Hk; cbn [fold_left forallb].
-    - split; [exact Na|]. split; [exact Hk|]. rewrite andb_true_r. reflexivity.
+    induction rest as [|[f q] rest IH]; intros acc seen Hok Hacc; cbn [fold_left].
+    - rewrite app_nil_r. exact Hacc.
     - inversion Hok as [|? ? Hf Hok']; subst. unfold term_ok in Hf; cbn in Hf.
-      destruct (term_weights f Hf) as (Nf & Kf & Rf).
-      destruct (IH (merge Nat.eqb acc (scale q (f_w (getf s f)))) Hok') as (A & B & C).
-      + apply (NoDupKeys_merge nat Nat.eqb nat_eqb_spec); [exact Na|apply NoDupKeys_scale, Nf].
-      + intros k Hin. apply keys_merge_in in Hin as [Hin|Hin]; [apply Hk, Hin|].
-        rewrite keys_scale in Hin. apply Kf, Hin.
-      + split; [exact A|]. split; [exact B|]. rewrite C.
-        rewrite (forallb_mem_equiv _ (keys (merge Nat.eqb acc (scale q (f_w (getf s f)))))
-                                   (keys acc ++ keys (f_w (getf s f)))).
-        * rewrite forallb_app, Rf. rewrite andb_assoc. reflexivity.
-        * intros k. rewrite keys_merge_in, in_app_iff, keys_scale. reflexivity.
+      destruct (term_weights f Hf) as (Nf & Kf). destruct Hacc as (Na & Ka).
+      replace (seen ++ (f, q) :: rest) with ((seen ++ [(f, q)]) ++ rest) by (rewrite <- app_assoc; reflexivity).
+      apply IH; [exact Hok'|]. split.
+      + apply NoDupKeys_prune. apply (NoDupKeys_merge nat Nat.eqb nat_eqb_spec); [exact Na|apply NoDupKeys_scale, Nf].
+      + intros k Hin. apply (keys_prune_incl nat) in Hin. apply keys_merge_in in Hin.
+        rewrite forallb_app. cbn [forallb]. destruct Hin as [Hin|Hin].
+        * destruct (Ka k Hin) as (A & B & C). split; [exact A|]. split; [exact B|].
+          intros H. apply andb_true_iff in H as [H _]. apply C, H.
+        * rewrite keys_scale in Hin. destruct (Kf k Hin) as (A & B & C). split; [exact A|]. split; [exact B|].
+          intros H. apply andb_true_iff in H as [_ H]. apply andb_true_iff in H as [H _]. apply C, H.
+  Qed.
+
+  Lemma combine_weights_prop terms :
+    Forall term_ok terms -> wprop terms (combine_weights s terms).
+  Proof.
+    intros Hok. destruct terms as [|[f0 q0] rest]; cbn [combine_weights].
+    - split; [apply pND_nil|intros k []].
+    - inversion Hok as [|? ? Hf Hok']; subst. unfold term_ok in Hf; cbn in Hf.
+      destruct (term_weights f0 Hf) as (Nf & Kf).
+      apply (combine_fold rest (scale q0 (f_w (getf s f0))) [(f0, q0)] Hok').
+      split; [apply NoDupKeys_scale, Nf|].
+      intros k Hin. rewrite keys_scale in Hin. destruct (Kf k Hin) as (A & B & C).
+      split; [exact A|]. split; [exact B|]. cbn [forallb]. intros H. apply andb_true_iff in H as [H _]. apply C, H.
   Qed.
 End Combine.
 
@@ -248,23 +267,31 @@ Proof. split; cbn; intros; lia. Qed.
 Lemma step_inv s o :
   inv s -> op_scoped s o = true -> op_guard s o = true -> inv (step s o).
 Proof.
-  intros Hinv Hsc Hg. unfold step. destruct o as [| |reuse|terms|f p|f p|f p|f|f|f x g v]; cbn [step_ret op_scoped op_guard] in *.
+  intros Hinv Hsc Hg. unfold step. destruct o as [| |reuse|terms|w reuse|f p|f p|f p|f|f|f x g v]; cbn [step_ret op_scoped op_guard] in *.
   - cbn. apply inv_bump; [exact Hinv|lia].
   - cbn. apply inv_bump; [exact Hinv|lia].
   - cbn [fst]. apply inv_append; cbn; auto. discriminate.
-  - cbn [fst]. apply andb_true_iff in Hsc as [Hr Hne].
+  - cbn [fst]. apply andb_true_iff in Hsc as [Hr _]. apply andb_true_iff in Hg as [Hnz Hne].
     assert (Hok : Forall (term_ok s) terms).
     { apply Forall_forall. intros [f q] Hin. rewrite forallb_forall in Hr.
       apply in_range_spec. apply (Hr (f, q) Hin). }
-    destruct (combine_fold s Hinv terms [] Hok pND_nil) as (A & B & C); [intros k []|].
-    fold (combine_weights s terms) in A, B, C.
+    destruct (combine_weights_prop s Hinv terms Hok) as (A & B).
     apply inv_append; cbn [f_pts f_stat f_leaf f_w f_reuse]; auto; [discriminate|].
     intros _. split; [exact A|]. split.
     { intros Hc. rewrite Hc in Hne. discriminate. }
-    split; [exact Hg|]. split.
-    + intros k q Hin. apply B. apply (In_keys nat k q). exact Hin.
-    + rewrite forallb_pairs_keys. unfold combine_weights, combine_reuse in *. cbv zeta in C.
-      symmetry. etransitivity; [exact C|reflexivity].
+    split; [exact Hnz|]. split.
+    + intros k q Hin. destruct (B k (In_keys nat k q _ Hin)) as (B1 & B2 & _). auto.
+    + intros Hre. apply forallb_forall. intros [k q] Hin.
+      destruct (B k (In_keys nat k q _ Hin)) as (_ & _ & B3). apply B3. exact Hre.
+  - cbn [fst]. apply andb_true_iff in Hsc as [Hsc Hre]. apply andb_true_iff in Hsc as [Hnd Hlf].
+    apply andb_true_iff in Hg as [Hnz Hne].
+    apply inv_append; cbn [f_pts f_stat f_leaf f_w f_reuse]; auto; [discriminate|].
+    intros _. split; [apply (nodup_by_spec Nat.eqb nat_eqb_spec), Hnd|]. split.
+    { intros Hc. rewrite Hc in Hne. discriminate. }
+    split; [exact Hnz|]. split.
+    + intros k q Hin. rewrite forallb_forall in Hlf. specialize (Hlf (k, q) Hin). cbn in Hlf.
+      apply andb_true_iff in Hlf as [H1 H2]. apply in_range_spec in H1. auto.
+    + intros Hr. rewrite Hr in Hre. exact Hre.
   - apply andb_true_iff in Hsc as [Hr Hp]. apply in_range_spec in Hr.
     pose proof (oracle_inv s f p Hinv Hr (wfq_of_bools s p Hp Hg)) as H.
     destruct (oracle s f p) as [s' [g v]]. exact H.
